@@ -90,6 +90,8 @@ def _validate(ck, hists, obs, label):
 INPLACE = {"gin", "convert_to_units", "convert_to_base", "convert_to_cgs", "convert_to_mks", "convert_to_equivalent", "iop", "ufunc_out", "unary_out", "setitem0", "setitemall", "copyto", "put", "putmask", "fill_diagonal"}
 
 
+CONV = ["in_units", "to", "to_value", "in_base", "in_cgs", "in_mks", "convert_to_units", "convert_to_base", "convert_to_cgs", "convert_to_mks", "copy"]
+ORD = ["gorder"]  # sort / partition / quantile family (frame-only)
 GEN = ["gufunc", "gunary", "garrfn", "gmethod"]  # generic copying families (frame-only)
 GIN = ["gin"]  # generic in-place family (frame-only)
 NONG = ["in_units", "to", "to_value", "in_base", "in_cgs", "in_mks", "to_equivalent", "binop", "ufunc", "unary", "copy", "concatenate", "dot", "clip", "aunit",
@@ -100,9 +102,9 @@ def _set(xs):
     return "{" + ", ".join('"%s"' % x for x in xs) + "}"
 
 
-def _cfg(ck, name, maxlen, dtas, dtbs, uas, ubs, uqs, dtcs, ops=(), fan=0, ops2=(), focus=False):
-    txt = "CONSTANTS\n  MaxLen = %d\n  ExportLen = %d\n  DtAs = %s\n  DtBs = %s\n  UAs = %s\n  UBs = %s\n  UQs = %s\n  DtCs = %s\n  OpSet = %s\n  OpSet2 = %s\n  FocusR = %s\n  Fan = %d\n  Seed = %d\nINIT Init\nNEXT %s\nINVARIANT Export\nCHECK_DEADLOCK FALSE\n" % (
-        maxlen, maxlen, _set(dtas), _set(dtbs), _set(uas), _set(ubs), _set(uqs), _set(dtcs), _set(ops), _set(ops2), "TRUE" if focus else "FALSE", fan or 1, ck.seed % 100000, "NextRnd" if fan else "Next")
+def _cfg(ck, name, maxlen, dtas, dtbs, uas, ubs, uqs, dtcs, ops=(), fan=0, ops2=(), focus=False, vals=("p2",)):
+    txt = "CONSTANTS\n  MaxLen = %d\n  ExportLen = %d\n  DtAs = %s\n  DtBs = %s\n  UAs = %s\n  UBs = %s\n  UQs = %s\n  DtCs = %s\n  OpSet = %s\n  OpSet2 = %s\n  FocusR = %s\n  Fan = %d\n  Seed = %d\n  ValSet = %s\nINIT Init\nNEXT %s\nINVARIANT Export\nCHECK_DEADLOCK FALSE\n" % (
+        maxlen, maxlen, _set(dtas), _set(dtbs), _set(uas), _set(ubs), _set(uqs), _set(dtcs), _set(ops), _set(ops2), "TRUE" if focus else "FALSE", fan or 1, ck.seed % 100000, _set(vals), "NextRnd" if fan else "Next")
     open(ck.spec + f"/{name}.cfg", "w").write(txt)
     return name
 
@@ -117,7 +119,10 @@ def _timed(ck, what, t0):
 def _run_instance(ck, name, label):
     # (-coverage costs 11 s on this module; vacuity is excluded by requiring exported histories instead)
     res = ck.tlc("MC_C18", name, workers=1, coverage=False, label=label, timeout=3000)
-    hists = [{"cfg": r["cfg"], "h": r["h"], "mv": r["mv"]} for r in res.by_tag("HIST")]
+    # (the initial numbers chosen by the model travel with the configuration: replay files carry them too)
+    # identical configurations share one dict (the thorough tier holds several 100 000 histories)
+    seen = {}
+    hists = [{"cfg": seen.setdefault(json.dumps([r["cfg"], r["iv"]], sort_keys=True), dict(r["cfg"], iv=r["iv"])), "h": r["h"], "mv": r["mv"]} for r in res.by_tag("HIST")]
     if not hists:
         raise MachineryFailure("no histories exported by " + name)
     return hists
@@ -128,6 +133,7 @@ def run(ck):
     ck.assumptions += [
         "object graph: base array A[4], view V=A[1:3], array B[2], quantity Q, out buffer C[2], result slot R, Unit objects U1/U2; values are powers of two",
         "dyadic model registry (la=1 m, lb=8 m, ta=1 s, oc=offset scale K-4) on top of unyt's default symbols: conversions are exact in floating point, numbers are compared as exact rationals",
+        "conversion routes are also run on numbers that do not fit the float type of their item size, among degC/degF/R/K/mile/km: the numbers of an in-place conversion and of its copying form are compared bit for bit (floats as interned tokens, equal token = same float)",
         "which objects share memory is taken from the model's object graph (V with A), not from observation",
         "a failed in-place call is compared on numbers and unit (integer out=/augmented targets are retyped to float before validation); an object sharing memory with a retyped target is exempt",
         "floats that are not small rationals (equivalence conversions) are compared as interned tokens; floats within 1e-15 relative share a token",
@@ -179,7 +185,18 @@ def run(ck):
     else:
         namei2 = _cfg(ck, "MC_C18_ti2", 1, ["i8"], ["f8"], ["lr"], ["la"], ["na"], ["i8"], GIN)
         namei = _cfg(ck, "MC_C18_ti", 1, ["f8", "i8"], ["f8"], ["la", "oc", "lb"], ["lb", "K"], ["la"], ["f8", "i8"], GIN)
-    insts = [("step", name, f"single step: configurations x call catalogue ({name})"), ("step", namei, f"single step: configurations x generic in-place family ({namei})"),
+    # conversion routes number by number: the "wide" value class (numbers that need more bits than the float type of their
+    # own item size once scaled or shifted) on signed / unsigned integer and narrow float data, among the real (non-dyadic)
+    # scales of the default table (degC, degF, R, K, mile, km) and the dyadic offset scale; every in-place conversion is
+    # compared bit for bit with its copying form (P4_Twin), every copying one must leave its input alone (P1_NoMut)
+    if ck.tier == "quick":
+        namec = _cfg(ck, "MC_C18_qc", 1, ["i4", "i2", "f4"], ["u4"], ["dC", "dF", "oc"], ["K"], ["dF"], ["i8"], CONV, vals=["wide"])
+    else:
+        namec = _cfg(ck, "MC_C18_tc", 1, ["i2", "i4", "i8", "f4", "f2", "u2"], ["f4", "u4"], ["dC", "dF", "oc", "K", "Rk"], ["K", "mi"], ["mi", "dF"], ["i4"], CONV, vals=["wide"])
+    # functions that sort / partition / select by rank, on data in no particular order (NumPy offers to use the input as
+    # scratch space there): P1_NoMut
+    nameo = _cfg(ck, "MC_C18_ord", 1, ck.q(["f8"], ["f8", "f4", "i4"]), ["u4"], ck.q(["dC"], ["dC", "la"]), ["K"], ["mi"], ["i8"], ORD, vals=["wide"])
+    insts = [("step", nameo, f"single step: rank/order functions on unordered data ({nameo})"), ("step", namec, f"single step: wide values x conversion routes ({namec})"), ("step", name, f"single step: configurations x call catalogue ({name})"), ("step", namei, f"single step: configurations x generic in-place family ({namei})"),
              ("step", namei2, f"single step: configurations x generic in-place family ({namei2})"), ("step", name2, f"single step: configurations x call catalogue ({name2})"),
              ("step", nameg, f"single step: configurations x generic copying families ({nameg})"),
              ("step", nameg2, f"single step: configurations x generic copying families ({nameg2})")]
@@ -209,11 +226,13 @@ def run(ck):
             hists = rnd.sample(hists, 40000)
             ck.cov["depth2_sampled"] = True
         counts[kind] = counts.get(kind, 0) + len(hists)
-        if nm == insts[0][1] or kind == "rnd":
+        if nm == name or kind == "rnd":
             ck.sample({"cfg": hists[len(hists) // 2]["cfg"], ("history" if kind == "step" else "thinned_history"): hists[len(hists) // 2]["h"]})
         allh += hists
     ck.cov["exhaustive"] = True
     ck.cov["single_step_cases"] = counts.get("step", 0)
+    ck.cov["order_function_cases"] = len(outs[0])
+    ck.cov["wide_value_conversion_cases"] = len(outs[1])
     ck.cov["result_then_inplace_histories"] = counts.get("focus", 0)
     if "depth2" in counts:
         ck.cov["depth2_histories"] = counts["depth2"]
